@@ -134,11 +134,14 @@ add("C13",
     "PARTIAL. Coq theorems over an interleaving model of acquire ; body ; release (Model/Lock.v), for every schedule of any number of operations: "
     "mutual exclusion per object, lock file present exactly while an operation is inside its body, released on every outcome (Ok, Err, panic), no "
     "mutation of an object's data outside its lock, refused acquire changes nothing and is refused exactly when the lock is held, steps on "
-    "different objects commute, every complete interleaving equals the serial execution of the granted operations in acquire order. "
-    "Correspondence: real CLI processes under strace - every mutating command (also failing and fault-injected) is accepted by the bracket "
-    "automaton proved for all model traces; a second process run while the first is held (delay injection) at sampled system calls is refused / "
-    "admitted as the model predicts and the final tree equals the serial reference; N-way races. Search: trace shape, snapshot equality, result in "
-    "the set of serial results.",
+    "different objects commute, every complete interleaving equals the serial execution of the granted operations in acquire order; each "
+    "operation takes its object's lock exactly once: for every schedule its events are one acquire, then only its mutations of that object, "
+    "then the matching release and nothing after it, whatever the outcome (C13_one_bracket_per_operation, C13_returned_operation_one_bracket). "
+    "Correspondence: real CLI processes under strace - every mutating command (also failing and fault-injected) is accepted by the strict "
+    "one-bracket automaton (strict_ok / strict_done, proved to accept every model trace: C13_traces_strictly_bracketed); a second process "
+    "(commit, cp, reset, upgrade) run while the first is held (delay injection) at sampled system calls, at the removal of its lock file (entry "
+    "and exit) and at any call after a release is refused exactly when the first has begun and is not finished, and the final tree equals the "
+    "serial reference; N-way races. Search: call pattern A M* R per command, snapshot equality, result in the set of serial results.",
     "Atomicity of O_CREAT|O_EXCL and genuinely parallel interleavings are assumptions of the model (runtime facts); the correspondence exercises "
     "'B atomic inside A' schedules and whole-command races only. Lock key = sha256(id) assumed injective.",
     "machine-checked proof in Coq (invariants by induction over schedules, commutation => serializability) + strace trace correspondence")
